@@ -360,8 +360,11 @@ func (f *Frame) havocReachable(st *State, e ast.Expr, v Val, fn *types.Func) {
 		return
 	}
 	if f.isLvalue(e) {
-		if _, isIfc := v.Ty.Underlying().(*types.Interface); isIfc {
-			return // opaque handle: its state lives in ghost variables, not in the value
+		if _, isIfc := v.Ty.Underlying().(*types.Interface); isIfc && !f.statefulIfc(v.Ty) {
+			// an interface value is a handle: the handle itself does not change. Only interfaces whose
+			// contracts model abstract state behind the handle (some method has `modifies self`) lose
+			// what is known about that state when an uncontracted callee may have changed it.
+			return
 		}
 		if _, isSl := v.Ty.Underlying().(*types.Slice); isSl {
 			// the callee gets a copy of the slice header: the elements may change, the caller's offset,
@@ -374,6 +377,27 @@ func (f *Frame) havocReachable(st *State, e ast.Expr, v Val, fn *types.Func) {
 		}
 		f.assign(st, e, f.havoc(st, "hv", v.Ty))
 	}
+}
+
+// statefulIfc reports whether contracts give the interface type an abstract state (a method of it is
+// specified with `modifies self`).
+func (f *Frame) statefulIfc(t types.Type) bool {
+	n, ok := t.(*types.Named)
+	if !ok || n.Obj().Pkg() == nil {
+		return false
+	}
+	prefix := n.Obj().Pkg().Path() + "." + n.Obj().Name() + "."
+	for k, ct := range f.c.specs.Contracts {
+		if !strings.HasPrefix(k, prefix) {
+			continue
+		}
+		for _, m := range ct.Modifies {
+			if specRoot(m) == "self" {
+				return true
+			}
+		}
+	}
+	return false
 }
 
 func (f *Frame) isLvalue(e ast.Expr) bool {
@@ -627,6 +651,9 @@ func (f *Frame) bindArgs(st *State, call *ast.CallExpr, fn *types.Func, recvExpr
 			wantPtr = havePtr
 		}
 		ba := boundArg{name: recv.Name(), expr: recvExpr, obj: recv}
+		if _, isIfc := recv.Type().Underlying().(*types.Interface); isIfc && ba.name == "" {
+			ba.name = "self" // interface methods have no receiver name: contracts call it self
+		}
 		switch {
 		case wantPtr && !havePtr:
 			ba.val = f.mkPtr(rv)
@@ -676,6 +703,9 @@ func (f *Frame) bindArgs(st *State, call *ast.CallExpr, fn *types.Func, recvExpr
 		}
 		a := call.Args[i]
 		ba := boundArg{name: p.Name(), expr: a, obj: p}
+		if ba.name == "" {
+			ba.name = fmt.Sprintf("p%d", i) // unnamed parameter (interface method): p<i> in contracts
+		}
 		if u, ok := ast.Unparen(a).(*ast.UnaryExpr); ok && u.Op == token.AND {
 			if _, isLit := ast.Unparen(u.X).(*ast.CompositeLit); !isLit {
 				ba.expr = u.X
@@ -832,6 +862,12 @@ func (f *Frame) callByContract(st *State, call *ast.CallExpr, fn *types.Func, ct
 			continue
 		}
 		switch a.val.Ty.Underlying().(type) {
+		case *types.Interface:
+			// the abstract state behind an interface handle changes: a fresh opaque value, described by
+			// the callee's ensures over its pure observers
+			if a.val.T != "nil" {
+				post.names[a.name] = f.havoc(st, "post_"+a.name, a.val.Ty)
+			}
 		case *types.Pointer, *types.Slice, *types.Map:
 			if paths := modPaths(ct)[a.name]; len(paths) > 0 && !ct.ModifiesAll {
 				if _, isPtr := a.val.Ty.Underlying().(*types.Pointer); isPtr {
